@@ -294,7 +294,22 @@ func r04_2(r *Report, p *Program) {
 		}
 		once := callsTo(ca, false, "sync.Once.Do")
 		inOnce := 0
-		for _, cl := range engine.Closures(ca) {
+		// the function handed to Once.Do: a closure of CanAdopt, or a method value / named function
+		onceBodies := append([]*ssa.Function(nil), engine.Closures(ca)...)
+		for _, o := range once {
+			for _, a := range o.Common().Args {
+				for _, g := range p.ResolveFuncValue(a) {
+					dup := false
+					for _, x := range onceBodies {
+						dup = dup || x == g
+					}
+					if !dup && strings.HasPrefix(FK(g), engine.ModPrefix) {
+						onceBodies = append(onceBodies, g)
+					}
+				}
+			}
+		}
+		for _, cl := range onceBodies {
 			for _, b := range engine.BlocksInl(cl) {
 				for _, in := range b.Instrs {
 					if c, isC := in.(*ssa.Call); isC && strings.Contains(E(c.Common().Value), ".CanAdoptFunc") {
